@@ -1,4 +1,4 @@
 SPECIFICATION MSpec
-CONSTANTS MaxCalls = 3
+CONSTANTS MaxCalls = 6
 INVARIANTS P_C20 P_C03 P_C05 P_Writes
 CHECK_DEADLOCK FALSE
